@@ -275,6 +275,8 @@ def _ax_sqrt(ctx, a, v, d):
 def _ax_exp(ctx, a, v, d):
     ctx.axiom(v > 0, "exp>0")
     ctx.axiom(z3.Implies(a == 0, v == 1), "exp(0)=1")
+    if getattr(ctx, "light_axioms", False):
+        return
     for a2, v2 in d.values():
         if a2 is not a:
             ctx.axiom(
@@ -319,7 +321,18 @@ def _ax_trig(which):
     return ax
 
 
+def _ax_erf(ctx, a, v, d):
+    ctx.axiom(z3.Implies(a == 0, v == 0), "erf(0)=0")
+    ctx.axiom(z3.And(v > -1, v < 1, z3.Implies(a > 0, v > 0), z3.Implies(a < 0, v < 0)), "|erf|<1, sign(erf x)=sign x")
+    if getattr(ctx, "light_axioms", False):
+        return
+    for a2, v2 in d.values():
+        if a2 is not a:
+            ctx.axiom(z3.And(z3.Implies(a < a2, v < v2), z3.Implies(a2 < a, v2 < v), z3.Implies(a == -a2, v == -v2)), "erf strictly increasing and odd")
+
+
 _AXIOMS = {
+    "erf": _ax_erf,
     "sqrt": _ax_sqrt,
     "exp": _ax_exp,
     "log": _ax_log,
